@@ -93,7 +93,29 @@ def main():
         r = py_exc(lambda: int(s))
         cases.append(("(match PV.Py.int (List.replicate %d '7') with | .ok v => \"ok\" | .error e => \"error \" ++ reprStr e)" % n,
                       "ok" if r[0] == "ok" else "error PV.Py.Exc." + r[1]))
-    src = ["import PV.Py.Prelude", "set_option maxRecDepth 4000", "set_option linter.unusedVariables false"]
+    # the hand model's conversions (PV.Model.Text.pyInt / pyFloat / strip) on the whitespace classes: `str.strip()` and
+    # `int()` / `float()` strip DIFFERENT sets (0x1c-0x1f only the former).  `outOfModel` (non-ASCII, '_', inf/nan) is the
+    # model declining to answer; every other answer must be CPython's.
+    MI = ("(match PV.Text.pyInt %s with | .ok v => \"ok \" ++ toString v | .valueError => \"error ValueError\" "
+          "| .outOfModel => \"outOfModel\")")
+    MF = ("(match PV.Text.pyFloat %s with | .ok d => \"ok \" ++ toString d.mant ++ \"e\" ++ toString d.exp "
+          "| .valueError => \"error ValueError\" | .outOfModel => \"outOfModel\")")
+    model_cases = []
+    wsc = [0x09, 0x0a, 0x0b, 0x0c, 0x0d, 0x1c, 0x1d, 0x1e, 0x1f, 0x20, 0x85, 0xa0, 0x1680, 0x2000, 0x2028, 0x2029, 0x3000, 0x00, 0x08, 0x7f]
+    for c in wsc:
+        for body in ("5", "-12", "+007", "2.5", "-.5e-3", "1e2", ""):
+            for t in (chr(c) + body, body + chr(c), chr(c) + body + chr(c), " " + chr(c) + body, body[:1] + chr(c) + body[1:]):
+                r = py_exc(lambda: int(t))
+                want_i = "ok %d" % r[1] if r[0] == "ok" else "error ValueError"
+                model_cases.append((MI % lean_str(t), want_i, t))
+                r = py_exc(lambda: float(t))
+                want_f = "ok" if r[0] == "ok" else "error ValueError"      # an `ok` value is compared below
+                model_cases.append((MF % lean_str(t), want_f, t))
+                model_cases.append(("(%s) (PV.Text.strip %s)" % (S, lean_str(t)), show_str(t.strip()) if ord(max(t or " ")) < 128 else None, t))
+    n_own = len(cases)
+    for e, w, _ in model_cases:
+        cases.append((e, w))
+    src = ["import PV.Py.Prelude", "import PV.Model.Text", "set_option maxRecDepth 4000", "set_option linter.unusedVariables false"]
     nchunk = 0
     for k in range(0, len(cases), 10):
         src.append("def chunk%d : IO Unit := do" % nchunk)
@@ -116,12 +138,25 @@ def main():
         return 2
     got = p.stdout.decode().split("\n")
     bad = 0
-    for (e, want), g in zip(cases, got):
+    skipped = 0
+    for k, ((e, want), g) in enumerate(zip(cases, got)):
+        if k >= n_own:
+            if want is None or g == "outOfModel":
+                skipped += 1
+                continue
+            if want == "ok" and g.startswith("ok "):
+                # exact decimal mant * 10^exp against CPython's float of the same text
+                m, x = g[3:].split("e", 1)
+                import fractions
+                val = fractions.Fraction(int(m)) * fractions.Fraction(10) ** int(x)
+                if float(val) == float(model_cases[k - n_own][2]):
+                    continue
         if g != want:
             bad += 1
             if bad <= 15:
                 print("DISAGREE\n  lean: %s\n  -> %r\n  python: %r" % (e[:300], g, want))
-    print("%d cases, %d disagreements" % (len(cases), bad))
+    print("%d cases (%d of them on the model's pyInt/pyFloat/strip, %d declined as outOfModel / non-ASCII), %d disagreements" % (
+        len(cases), len(cases) - n_own, skipped, bad))
     return 1 if bad else 0
 
 
